@@ -73,12 +73,16 @@ def sessions(ctx):
 
 
 def run(ctx):
-    return sessbase.run_property(ctx, 'C12',
+    rep = sessbase.run_property(ctx, 'C12',
         'P1: TLC explores all chains (<= 5 events) of filter / breakpoint commands over an atom pool (alternatives, exclusions, '
         '`*`, `!`, malformed) interleaved with messages; P2: replayed through the tool; P3: random chains of 3-12 commands over '
         'generated atoms. After every command the tool\'s current filter and breakpoint matcher are evaluated on every recorded '
         'message and TLC compares the selection with Matcher!Refine / SelLo / SelHi; later shown lines and error lines too.',
         [('MC_Session_join.cfg', 'C12 accumulation')], sessions(ctx))
+    # the same through GDB mode (`wl ...` commands typed while the program is halted, messages arriving as closures)
+    from props import gdbbase
+    gdbbase.gdb_batch(ctx, rep, relevant('C12'), ctx.pick(40, 400), 1000357)
+    return rep
 
 
 def replay(ctx, data):
